@@ -136,7 +136,7 @@ def cfg_lean(facts):
 
 
 # ------------------------------------------------------------------ XMILE source: independent tokenizer + reference parser
-TOKRE = re.compile(r'\s*(?:(?P<num>\d+\.\d*|\.\d+|\d+)|(?P<q>"[^"]*")|(?P<name>[A-Za-z_][A-Za-z_0-9]*(?:\.[A-Za-z_][A-Za-z_0-9]*)?)|(?P<op><>|<=|>=|[-+*/^=<>(),]))')
+TOKRE = re.compile(r'\s*(?:(?P<num>\d+\.\d*|\.\d+|\d+)|(?P<q>"[^"]*")|(?P<name>\.?[A-Za-z_][A-Za-z_0-9]*(?:\.[A-Za-z_][A-Za-z_0-9]*)?)|(?P<op><>|<=|>=|[-+*/^=<>(),]))')
 SPECIALS = {"TIME", "DT", "STARTTIME", "STOPTIME", "PI"}
 BP = {"or": 1, "and": 2, "=": 3, "<>": 3, "<": 4, "<=": 4, ">": 4, ">=": 4, "+": 5, "-": 5, "*": 6, "/": 6, "mod": 6, "^": 8}
 CMPS = {"=", "<>", "<", "<=", ">", ">="}
@@ -188,10 +188,12 @@ def make_module_doc(rng):
             q = other.replace(" ", "_")
             eqs.append(("cross", f"{q}.rate + rate"))
             eqs.append(("own", f"{mname.replace(' ', '_').upper()}.out_0 - out_0 + Base_Level"))
+            eqs.append(("from root", ".rate * 2 + rate - .Base_Level"))   # wave 7: a leading period addresses the ROOT model
         models.append((mname, eqs))
     root = models[0][1]
     root.append(("total", " + ".join(f"{n.replace(' ', '_')}.out_0" for n in names) + " + out_0"))
     root.append(("pick", f"{names[0].replace(' ', '_')}.twice - {names[-1].replace(' ', '_')}.ctl_1 + rate"))
+    root.append(("dotted", ".rate + rate"))
     return models, (0.0, 4.0, 1.0, "1")
 
 
@@ -219,6 +221,7 @@ def module_tables(models, san):
         for n, _ in eqs:
             py[(mname, n)] = (pm + "." if pm else "") + san(n)
     qualified = {xcanon(mname) + "." + xcanon(n): pn for (mname, n), pn in py.items() if mname}
+    qualified.update({"." + xcanon(n): pn for (mname, n), pn in py.items() if not mname})
     res = {}
     for mname, eqs in models:
         r = dict(qualified)
@@ -262,7 +265,7 @@ def eval_modules(models, spec, want=None):
                     if isinstance(got, BaseException) or not same_val(got, exp):
                         m = re.search(r"'%s'\s*: lambda t: (.*),\n" % re.escape(pn), pysrc)
                         return {"kind": "modules", "models": [[mn, [list(x) for x in es]] for mn, es in models], "spec": list(spec), "variable": pn,
-                                "model": mname, "equation": eq, "t": t, "observed": repr(got), "expected": repr(exp), "python": m.group(1) if m else None}
+                                "raised": isinstance(got, BaseException), "model": mname, "equation": eq, "t": t, "observed": repr(got), "expected": repr(exp), "python": m.group(1) if m else None}
         return None
     finally:
         shutil.rmtree(d, ignore_errors=True)
@@ -281,15 +284,18 @@ def shrink_modules(models, spec, want):
             if models[mi][0] != "" :
                 trial = models[:mi] + models[mi + 1:]
                 r = eval_modules(trial, spec, want)
-                if r is not None:
+                if r is not None and r["raised"] == cur["raised"]:
                     models, cur, changed = trial, r, True
                     continue
             for vi in range(len(models[mi][1]) - 1, -1, -1):
                 trial = [(mn, [e for j, e in enumerate(es) if not (i == mi and j == vi)]) for i, (mn, es) in enumerate(models)]
                 r = eval_modules(trial, spec, want)
-                if r is not None:
+                if r is not None and r["raised"] == cur["raised"]:
                     models, cur, changed = trial, r, True
     return cur
+
+
+ROOT_REF_PROBE = []
 
 
 def probe_tree_ownership():
@@ -299,7 +305,7 @@ def probe_tree_ownership():
     from BPTK_Py.sdcompiler.plugins import sanitizeName
     d = scratch_dir("bptkverif_c03o_")
     try:
-        models = [("", [("rate", "3"), ("out", "rate * 2"), ("again", "rate * 2")]), ("Plant A", [("rate", "5"), ("out", "rate * 2")]),
+        models = [("", [("rate", "3"), ("out", "rate * 2"), ("again", "rate * 2")]), ("Plant A", [("rate", "5"), ("out", "rate * 2"), ("rr", ".rate + rate")]),
                   ("Plant B", [("rate", "7"), ("out", "rate * 2")])]
         src = os.path.join(d, "o.xmile")
         with open(src, "w") as f:
@@ -309,6 +315,9 @@ def probe_tree_ownership():
         for mname, model in IR["models"].items():
             for ents in model["entities"].values():
                 for e in ents:
+                    if e["equation"] == [".rate + rate"]:
+                        node = e["equation_parsed"][0]
+                        ROOT_REF_PROBE[:] = [a.get("name") if isinstance(a, dict) else repr(a) for a in node.get("args", [])]
                     if e["equation"] != ["rate * 2"]:
                         continue
                     node = e["equation_parsed"][0]
@@ -612,7 +621,9 @@ def build_ir(src):
 
 # ------------------------------------------------------------------ document generator
 WORDS = ["alpha", "beta", "gamma", "delta", "rate", "level", "input", "output", "factor", "share", "cost", "price", "flow",
-         "base", "total", "yield", "ratio", "count"]
+         "base", "total", "yield", "ratio", "count",
+         # wave 7: names that START with a keyword, operator word or parameterless builtin (IF THEN ELSE AND OR NOT MOD TIME DT PI ...)
+         "order", "android", "iffy", "thence", "elsewhere", "notes", "timer", "dtx", "pie", "modular", "infinity", "nanny", "stoptimes", "minimum"]
 CONSTS = ["7", "3", "2", "5", "11", "0.5", "4", "1.5", "13", "0.25", "6", "9"]
 ARITH = ["+", "-", "*", "/", "^", "mod"]
 F1 = ["abs", "sqrt", "exp", "ln", "log10", "int", "round", "sin", "cos", "tan", "arcsin", "arccos", "arctan", "percent"]
@@ -626,7 +637,9 @@ def gen_arith(rng, depth, nvars, st):
         if r < 7 and nvars > 0:
             return ("var", rng.below(nvars))
         if r < 10 or nvars == 0:
-            lit = rng.choice(["2", "3", "0.5", "4", "1.5", "10", ".25", "7", "1"])
+            lit = rng.choice(["2", "3", "0.5", "4", "1.5", "10", ".25", "7", "1"]) if not rng.chance(1, 8) else \
+                rng.choice(["0", "0.0", "1000000", "0.001", "123456.789", "3.14159265358979", "00.50"])   # wave 7: falsy / large / many decimals / odd spellings
+            st["ops"]["lit:" + ("zero" if float(lit) == 0 else "large" if float(lit) >= 1000 else "plain")] = st["ops"].get("lit:" + ("zero" if float(lit) == 0 else "large" if float(lit) >= 1000 else "plain"), 0) + 1
             q = rng.below(10)
             if q == 0:                       # signed literal, bare: an operand of the level of unary minus
                 st["ops"]["nlit"] = st["ops"].get("nlit", 0) + 1
@@ -744,6 +757,8 @@ class Speller:
         self.kwcase = rng.below(3)
     def sp(self, must=False):
         r = self.rng.below(4)
+        if r == 3 and self.rng.chance(1, 3):
+            return self.rng.choice(["\t", "\n", " \t ", "\n  "])          # wave 7: tabs and line breaks are whitespace too
         return (" " if must else "") if r == 0 else " " if r < 3 else "  "
     def case(self, w):
         r = self.kwcase if self.rng.chance(3, 4) else self.rng.below(3)
@@ -832,7 +847,7 @@ def make_doc(rng, st):
     return doc_xml(eqs, spec), eqs, spec
 
 
-SIGNED = ["(-2)", "-2", "(-2)^2", "a*(-2)", "( - 3 )"]
+SIGNED = ["(-2)", "-2", "(-2)^2", "a*(-2)", "( - 3 )", "0", "(0.0)"]      # wave 7: the falsy literal at every operand position as well
 
 
 def signed_literal_equations():
@@ -850,6 +865,12 @@ def signed_literal_equations():
     for op in ["and", "or"]:
         eqs += [f"IF (-2) < a {op} b > (-3) THEN 1 ELSE 2", f"IF -2 < a {op} b > -3 THEN (-1) ELSE (-2)",
                 f"IF (-2) > a {op} NOT((-3) > b) THEN 1 ELSE 2"]
+    for op in ["+", "-", "*", "/", "^", "mod", "=", "<>", "<", "<=", ">", ">="]:
+        o = f" {op} "
+        cmp_ = op in ("=", "<>", "<", "<=", ">", ">=")
+        for e in [f"0{o}a", f"a{o}0", f"0.0{o}0", f"(0){o}b", f"a{o}(0.0)", f"a - a{o}b", f"0{o}0.0{o}a" if not cmp_ else f"0{o}a * 0"]:
+            eqs.append(f"IF {e} THEN 1 ELSE 0" if cmp_ else e)
+    eqs += ["0", "0.0", "(0)", "-0", "IF 0 = 0.0 THEN 1 ELSE 2", "IF a > 0 AND 0 < b THEN 0 ELSE 1", "IF NOT(0 > a) THEN 0 ELSE 0.0"]
     eqs += ["(-2)", "((-2))", "-(-2)", "-(-2)^2", "- (-2) * a", "-2", "-2^2", "(-2)^2", "(-2)^(-2)", "2^(-2)", "2^-2", "(-2)^2^2", "(-2)^-2^2",
             "a^(-2)^2", "IF a > 1 THEN (-2) ELSE -3", "IF a > 1 THEN -2 ELSE (-3)", "IF a < 1 THEN (-2)^2 ELSE (-3)^2", "(IF a > 1 THEN (-2) ELSE (-3)) ^ 2"]
     pos = ["a", "b", "2"]
@@ -1085,6 +1106,8 @@ def delay_cases(rng, quick):
         for n in (1, 2, 4):
             fams.append((f"{fn}/{n}", lambda i, T, n=n, fn=fn: f"{fn}(inp, {T}, {n})", lambda inp, T, s, dt, K, n=n: ref_cascade(inp, T, n, None, s, dt, K)))
         fams.append((f"{fn}/2+init", lambda i, T, fn=fn: f"{fn}(inp, {T}, 2, 1.5)", lambda inp, T, s, dt, K: ref_cascade(inp, T, 2, 1.5, s, dt, K)))
+    # wave 7: SMTH1 is expanded into helper stocks by plugins/complexFunctions (all three arguments must be identifiers)
+    fams.append(("SMTH1/ids", lambda i, T: "SMTH1(inp, avt, ini)", lambda inp, T, s, dt, K: ref_cascade(inp, T, 1, 4.0, s, dt, K)))
     for o in (1, 2, 3):
         fams.append((f"DERIVN/{o}", lambda i, T, o=o: f"DERIVN(inp, {o})", lambda inp, T, s, dt, K, o=o: ref_derivn(inp, o, s, dt, K)))
     fams.append(("NPV", lambda i, T: "NPV(inp, 0.1)", lambda inp, T, s, dt, K: ref_npv(inp, 0.1, s, dt, K)))
@@ -1111,7 +1134,7 @@ def run_delay_family(chk, rng, d, stats):
     for ci, (dt_text, dt, recip, start, itext, ifn, fams) in enumerate(delay_cases(rng, chk.quick)):
         stop = start + 4
         T = rng.choice(["2", "1.5", "3"])
-        eqs, refs = [("inp", itext)], {}
+        eqs, refs = [("inp", itext), ("avt", T), ("ini", "4")], {}
         for fi, (label, mk, rf) in enumerate(fams):
             name = f"y{fi}"
             if isinstance(mk, tuple):
@@ -1156,7 +1179,7 @@ def run_delay_family(chk, rng, d, stats):
                     fkey = ("value:derivn-step" if label.startswith("DERIVN") else "value:delay-start" if label.startswith("DELAY/")
                             else "value:helper-time-grid")
                     if not okv and fkey not in fails:
-                        fails[fkey] = {"kind": "delay", "variables": [["inp", itext], [name, dict(eqs)[name]]], "start": start, "stop": stop, "dt_text": dt_text,
+                        fails[fkey] = {"kind": "delay", "variables": [list(x) for x in eqs if not x[0].startswith("y")] + [[name, dict(eqs)[name]]], "start": start, "stop": stop, "dt_text": dt_text,
                                 "reciprocal": recip, "variable": name, "k": k, "t": t, "order": order, "builtin": label,
                                 "observed": repr(got), "expected": repr(exp)}
     # FORCST: cannot be evaluated on this tree (refers to model equations 'averageInput' / 'averagingTime'); loud, so allowed
@@ -1195,6 +1218,100 @@ def delay_replay(r):
             return repr(ex)
     finally:
         shutil.rmtree(d, ignore_errors=True)
+
+
+
+# ------------------------------------------------------------------ wave 7: the equation of a <flow> and the initial value of a <stock>
+# are equations too: biflow = its equation, uniflow (<non_negative/>) = max(0, equation), stock without flows = its initial-value
+# equation evaluated at the start time, for every t.
+def kind_doc_xml(items, spec):
+    body = []
+    for n, kind, e in items:
+        if kind == "aux":
+            body.append(f'\n\t\t\t<aux name="{xml_escape(n)}">\n\t\t\t\t<eqn>{xml_escape(e)}</eqn>\n\t\t\t</aux>')
+        elif kind in ("flow", "uniflow"):
+            nn = "\n\t\t\t\t<non_negative/>" if kind == "uniflow" else ""
+            body.append(f'\n\t\t\t<flow name="{xml_escape(n)}">\n\t\t\t\t<eqn>{xml_escape(e)}</eqn>{nn}\n\t\t\t</flow>')
+        else:
+            body.append(f'\n\t\t\t<stock name="{xml_escape(n)}">\n\t\t\t\t<eqn>{xml_escape(e)}</eqn>\n\t\t\t</stock>')
+    return doc_xml([], spec).replace("<variables>", "<variables>" + "".join(body))
+
+
+def make_kind_doc(rng, st):
+    nconst, neq = 3, rng.range(4, 6)
+    words = rng.shuffle(WORDS)
+    names = [words[i] if i % 2 else f"{words[i]} {rng.choice(['val', 'x', 'net'])}" for i in range(nconst + neq)]
+    sp = Speller(rng, names)
+    items = [(names[i], "aux", rng.choice(CONSTS)) for i in range(nconst)]
+    for j in range(neq):
+        i = nconst + j
+        for attempt in range(6):
+            text = sp.show(gen_sent(rng, rng.range(1, 3) if attempt < 5 else 0, i, st))
+            if peg_rejects(text) is None:
+                break
+        items.append((names[i], rng.choice(["flow", "uniflow", "stock", "stock", "flow", "aux"]), text))
+    return items, rng.choice([(0.0, 4.0, 1.0, "1"), (1.0, 5.0, 1.0, "1"), (0.0, 3.0, 0.25, "0.25")])
+
+
+def eval_kinds(items, spec, want=None):
+    from BPTK_Py.sdcompiler.plugins import sanitizeName
+    d = scratch_dir("bptkverif_c03k_")
+    try:
+        py = {n: sanitizeName("." + n.lower()) for n, _, _ in items}
+        resolve = {xcanon(n): py[n] for n, _, _ in items}
+        try:
+            ir, sim, pysrc = real_compile(kind_doc_xml(items, spec), d, "k")
+        except BaseException:
+            return None, 0
+        env = {}
+        for n, kind, e in items:
+            try:
+                t_ = ref_parse(xlex(e, resolve))
+            except Unsupp:
+                return None, 0
+            env[py[n]] = t_ if kind in ("aux", "flow") else ("call", "max", [("num", "0.0"), t_]) if kind == "uniflow" else ("call", "init", [t_])
+        count = 0
+        for n, kind, e in items:
+            if want is not None and py[n] != want:
+                continue
+            for t in [spec[0], spec[0] + spec[2], spec[1]]:
+                try:
+                    exp = ref_eval(env[py[n]], t, env, spec[:3])
+                except (Domain, Unsupp):
+                    continue
+                try:
+                    got = sim.equation(py[n], t)
+                except BaseException as ex:
+                    got = ex
+                count += 1
+                if isinstance(got, BaseException) or not same_val(got, exp):
+                    m = re.search(r"'%s'\s*: lambda t: (.*),\n" % re.escape(py[n]), pysrc)
+                    return {"kind": "kinds", "items": [list(x) for x in items], "spec": list(spec), "variable": py[n], "entity": kind, "equation": e, "t": t,
+                            "observed": repr(got), "expected": repr(exp), "python": m.group(1) if m else None}, count
+        return None, count
+    finally:
+        shutil.rmtree(d, ignore_errors=True)
+
+
+def shrink_kinds(items, spec, want):
+    cur, _ = eval_kinds(items, spec, want)
+    if cur is None:
+        return None
+    items = list(items)
+    for i in range(len(items) - 1, -1, -1):
+        for cand in (None, "3"):
+            if cand is None:
+                trial = items[:i] + items[i + 1:]
+            else:
+                trial = items[:i] + [(items[i][0], "aux", cand)] + items[i + 1:]
+            from BPTK_Py.sdcompiler.plugins import sanitizeName
+            if sanitizeName("." + items[i][0].lower()) == want:
+                break
+            r, _ = eval_kinds(trial, spec, want)
+            if r is not None:
+                items, cur = trial, r
+                break
+    return cur
 
 
 # ------------------------------------------------------------------ the check
@@ -1278,6 +1395,11 @@ def run(chk):
     chk.notes["probe"]["tree_ownership"] = own_rows
     eqn_rows = ", ".join(f"⟨{pyfrag.lean_str(mn)}, {c}, .bin .mul (.id \"rate\") (.num \"2.0\")⟩" for mn, c, _ in own_rows)
     ob += f"def probedEqns : List Eqn := [{eqn_rows}]\n"
+    rr_ok = ROOT_REF_PROBE == ["rate", "plantA.rate"]
+    chk.notes["probe"]["root_reference"] = list(ROOT_REF_PROBE)
+    ob += "def probedRootRef : List String := [" + ", ".join(pyfrag.lean_str(x) for x in ROOT_REF_PROBE) + "]\n"
+    ob += ("theorem root_ref_resolved : probedRootRef = ids (makeAbs \"plantA\" (.bin .add (.id \".rate\") (.id \"rate\"))) := by decide +kernel\n#print axioms root_ref_resolved\n" if rr_ok else
+           "theorem root_ref_not_resolved : probedRootRef ≠ ids (makeAbs \"plantA\" (.bin .add (.id \".rate\") (.id \"rate\"))) := by decide +kernel\n#print axioms root_ref_not_resolved\n#print axioms root_ref_witness\n")
     if owned:
         ob += ("theorem trees_owned : ownedOK probedEqns = true := by decide +kernel\n#print axioms trees_owned\n"
                "example := owned_resolution probedEqns trees_owned\n")
@@ -1334,6 +1456,7 @@ def run(chk):
     ndocs = 110 if chk.quick else 2500
     req, meta = [], []
     ref_fail, corr, loud_fail, delay_fail = None, None, None, None
+    kind_fail = None
     mod_fail = None
     try:
         nout = drive("C03", nreq)
@@ -1470,6 +1593,40 @@ def run(chk):
                     mstat["values_compared"] += 1
                     if (isinstance(got, BaseException) or not same_val(got, exp)) and mod_fail is None:
                         mod_fail = (models, spec, pn)
+        # ---------------- wave 7: equations in <flow>, <flow non_negative>, <stock> positions
+        kstat = stats.setdefault("entity_kinds", {"documents": 0, "values_compared": 0, "by_kind": {}})
+        for _ in range(8 if chk.quick else 150):
+            items, kspec = make_kind_doc(rng, stats)
+            kstat["documents"] += 1
+            for _n, kd, _e in items:
+                kstat["by_kind"][kd] = kstat["by_kind"].get(kd, 0) + 1
+            kf, cnt = eval_kinds(items, kspec)
+            kstat["values_compared"] += cnt
+            chk.case(("kinds", tuple(items)), nontrivial=True)
+            if kf is not None and kind_fail is None:
+                kind_fail = (items, kspec, kf)
+        # ---------------- wave 7: a second evaluation (memo hit, reversed order) returns the same values; compiling the first documents
+        # again after all the others yields the same file (no state carried from one compile_xmile call to the next)
+        rstat = stats.setdefault("repeat", {"revaluated": 0, "recompiled": 0})
+        for di, n, eq, pn, env, spec, sim, times in reversed(evals[:400]):
+            for t in reversed(times):
+                try:
+                    v1 = sim.equation(pn, t); v2 = sim.equation(pn, t)
+                except BaseException:
+                    continue
+                rstat["revaluated"] += 1
+                if not (v1 == v2 or (v1 != v1 and v2 != v2)) and corr is None:
+                    corr = ("second-evaluation-differs", eq, repr(v1), repr(v2))
+        for di in range(min(3, len(docs))):
+            xml, eqs, spec = docs[di]
+            try:
+                first = open(os.path.join(d, f"d{di}.py")).read()
+                _ir, _sim, again = real_compile(xml, d, f"d{di}")
+            except BaseException:
+                continue
+            rstat["recompiled"] += 1
+            if first != again and corr is None:
+                corr = ("recompilation-differs", [e for _, e in eqs][:3], "first compilation", "compilation after all other documents")
         out = drive("C03", req) if req else []
         for (eq, text, pyw, cpy, rsx), r in zip(meta, out):
             if corr is not None:
@@ -1539,11 +1696,18 @@ def run(chk):
         small = shrink_doc(eqs, spec, n)
         chk.add_finding("value:" + classify(eq), f"variable {n!r} = {small['equation']} evaluates to {small['observed']} at t={small['t']}, XMILE semantics give {small['expected']}; emitted {small['python']}",
                         small)
+    if kind_fail is not None:
+        items, kspec, kf = kind_fail
+        small = shrink_kinds(items, kspec, kf["variable"]) or kf
+        chk.add_finding("value:entity-kind", f"<{small['entity']}> {small['variable']!r} = {small['equation']} evaluates to {small['observed']} at t={small['t']}; "
+                        f"XMILE semantics (biflow = equation, uniflow = max(0, equation), stock without flows = initial value at the start time) give {small['expected']}; "
+                        f"emitted {small['python']}", small)
     if mod_fail is not None:
         models, spec, pn = mod_fail
         small = shrink_modules(models, spec, pn) or eval_modules(models, spec, pn) or {"kind": "modules", "models": [[mn, [list(x) for x in es]] for mn, es in models],
                                                                                       "spec": list(spec), "variable": pn, "observed": "?", "expected": "?"}
-        chk.add_finding("value:module-reference", f"model {small.get('model')!r}: variable {small['variable']!r} = {small.get('equation')} evaluates to {small['observed']} at "
+        mkey = "value:root-qualified-name" if re.search(r"(^|[^\w.])\.[A-Za-z_]", small.get("equation") or "") else "value:module-reference"
+        chk.add_finding(mkey, f"model {small.get('model')!r}: variable {small['variable']!r} = {small.get('equation')} evaluates to {small['observed']} at "
                         f"t={small.get('t')}, XMILE semantics (unqualified names mean the variables of the model that contains the equation) give {small['expected']}; "
                         f"emitted {small.get('python')}", small)
     for fkey, r in (delay_fail or {}).items():
@@ -1556,6 +1720,9 @@ def run(chk):
     if not good and ref_fail is None and loud_fail is None and delay_fail is None:
         chk.add_finding("obligation", f"configuration not good ({bad or missing or 'unknown builtin does not raise'}) and no failing equation found",
                         {"theorem": "Bptk.C03.Gen.cfg_good", "not_ok": bad, "missing": missing, "witnesses": witnesses}, found_input=False)
+    if not rr_ok and mod_fail is None and ref_fail is None:
+        chk.add_finding("obligation", f"`.rate + rate` in module Plant A resolves to {ROOT_REF_PROBE} (a leading period addresses the root model) and no wrong value was found",
+                        {"theorem": "Bptk.C03.Gen.root_ref_not_resolved"}, found_input=False)
     if not owned and mod_fail is None and ref_fail is None:
         chk.add_finding("obligation", f"parse_xmile hands one tree object to several equations (rows {own_rows}) and no wrong value was found",
                         {"theorem": "Bptk.C03.Gen.trees_shared"}, found_input=False)
@@ -1638,6 +1805,11 @@ def replay_dict(r):
         if res is None:
             return False, f"{r['variable']} = {r['equation']}: real value equals the XMILE reference value at all probe times"
         return True, f"{res['variable']} = {res['equation']} at t={res['t']}: observed {res['observed']}, expected {res['expected']}; python {res['python']}"
+    if r.get("kind") == "kinds":
+        res, _ = eval_kinds([tuple(x) for x in r["items"]], tuple(r["spec"]), r["variable"])
+        if res is None:
+            return False, f"{r['variable']}: real value equals the XMILE reference value for its entity kind"
+        return True, f"<{res['entity']}> {res['variable']} = {res['equation']} at t={res['t']}: observed {res['observed']}, expected {res['expected']}; python {res['python']}"
     if r.get("kind") == "modules":
         res = eval_modules([(mn, [tuple(x) for x in es]) for mn, es in r["models"]], tuple(r["spec"]), r["variable"])
         if res is None:
